@@ -233,8 +233,11 @@ func Groups(quick bool) []group {
 		"dagfan": {Mode: gprog.MDag, Nodes: L("a", "b", "c"), Edges: E("start>a", "start>b", "a>c", "b>c", "c>end")},
 		"wffan":  {Mode: gprog.MWorkflow, Nodes: L("a", "b", "c"), Edges: E("start>a", "start>b", "a>c", "b>c", "c>end")},
 		// three parallel nodes: with two of them asking for a re-run, the third is a plain task that completes next to two failed ones
-		"fan3":   {Mode: gprog.MPregel, Nodes: L("a", "b", "c"), Edges: E("start>a", "start>b", "start>c", "a>end", "b>end", "c>end")},
-		"wffan3": {Mode: gprog.MWorkflow, Nodes: L("a", "b", "c"), Edges: E("start>a", "start>b", "start>c", "a>end", "b>end", "c>end")},
+		"fan3": {Mode: gprog.MPregel, Nodes: L("a", "b", "c"), Edges: E("start>a", "start>b", "start>c", "a>end", "b>end", "c>end")},
+		// two independent lanes: the successor of the node that completes first is ready on its own (its value has left the
+		// channels and lives in the pending tasks) when the other lane's node asks for its re-run
+		"wf2lanes": {Mode: gprog.MWorkflow, Nodes: L("a", "b", "c", "d"), Edges: E("start>a", "a>c", "start>b", "b>d", "c>end", "d>end")},
+		"wffan3":   {Mode: gprog.MWorkflow, Nodes: L("a", "b", "c"), Edges: E("start>a", "start>b", "start>c", "a>end", "b>end", "c>end")},
 	}
 	for _, rk := range sortedKeys(rer) {
 		p := rer[rk]
